@@ -1,3 +1,4 @@
 import Model.Scan
 import Model.RunLoop
 import Model.Metadata
+import Model.Assign
